@@ -15,7 +15,7 @@ from concurrent.futures import ThreadPoolExecutor
 
 VERIF = os.path.dirname(os.path.dirname(os.path.abspath(__file__)))
 REPO = os.environ.get("VERIF_REPO", "/repo")
-BUILD_ROOT = os.path.join(VERIF, "build")
+BUILD_ROOT = os.environ.get("VERIF_BUILD_ROOT", os.path.join(VERIF, "build"))
 HARNESS = os.path.join(VERIF, "harness")
 
 COMMON = ["-std=c17", "-D_POSIX_C_SOURCE=200809L", "-DNDEBUG", "-DCIMBA_VERIF",
